@@ -13,6 +13,7 @@ import JubakoModel.Lemmas.Codec
 import JubakoModel.Lemmas.ContentFile
 import JubakoModel.Lemmas.FuncsBytes
 import JubakoModel.Lemmas.FuncsContent
+import JubakoModel.Lemmas.FuncsParse
 
 namespace Jubako
 
@@ -108,5 +109,17 @@ theorem c01_rules_are_source_rules :
 /-- non-vacuity: the translated split rule closes a compressed cluster at 4 MiB and any cluster at 4095 blobs -/
 example : Generated.clusterIsFull 1 true 4194304 1 = true ∧ Generated.clusterIsFull 1 false 4194304 1 = false ∧
           Generated.clusterIsFull 4095 false 0 0 = true ∧ Generated.clusterIsFull 0 true 0 5000000 = false := by decide
+
+/-- **Reading a content follows the source's order of checks and lookups**: `contentGet` of the reader model is
+    `ContentPack::get_content` as translated from `reader/content_pack/mod.rs` on every run, applied to the
+    model's three lookups (content-info entry, cluster, blob): an index at or beyond the content count is
+    answered `None` before anything else is read; a cluster index at or beyond the cluster count is a format
+    error; errors of the lookups are passed on unchanged. -/
+theorem c01_get_content_is_source_get_content (decompress : Nat → Bytes → Option Bytes) (f : Bytes) (i : Nat) :
+    contentGet decompress f i =
+      (contentOpen f).bind fun o =>
+        Generated.contentPackGetContent o.2.contentCount o.2.clusterCount (modelInfoAt f o.2) (modelGetCluster f o.2)
+          (modelGetBytes decompress f) i :=
+  gen_contentGet decompress f i
 
 end Jubako
